@@ -79,10 +79,43 @@ def run_variant(args):
     return (v.name, v.kind, "silent", "", [])
 
 
+def run_reformat(args):
+    """Whole-tree preserving variant: every module replaced by ast.unparse(ast.parse(src))
+    (all comments, blank lines, line breaks, quoting and parenthesisation changed)."""
+    prop, root, base_keys = args
+    import ast as _ast
+    base = Tree(root)
+    ov = {}
+    for rel, m in base.modules.items():
+        try:
+            ov[rel] = _ast.unparse(_ast.parse(m.src)) + "\n"
+            compile(ov[rel], rel, "exec")
+        except Exception as exc:  # pragma: no cover
+            return ("whole-tree-reformat", "keep", "broken-variant", f"{rel}: {exc}", [])
+    try:
+        ctx = analyse(prop, root, ov)
+    except AnalysisError as exc:
+        return ("whole-tree-reformat", "keep", "analysis-error", str(exc), [])
+    except Exception as exc:
+        return ("whole-tree-reformat", "keep", "analysis-error", "internal: " + repr(exc), [])
+    newk = sorted({f.key for f in ctx.findings} - base_keys)
+    if newk:
+        return ("whole-tree-reformat", "keep", "FALSE-ALARM", newk[0], newk)
+    return ("whole-tree-reformat", "keep", "silent", "", [])
+
+
 def run_variants(prop, root, base_keys, only_controls):
     mod = rules_module(prop)
     vs = [v for v in getattr(mod, "VARIANTS", []) if (v.control or not only_controls)]
     jobs = [(prop, root, v, base_keys) for v in vs]
+    if not only_controls:
+        extra = [run_reformat((prop, root, base_keys))]
+    else:
+        extra = []
+    return extra + _run_variant_jobs(jobs)
+
+
+def _run_variant_jobs(jobs):
     if not jobs:
         return []
     if len(jobs) < 3:
